@@ -225,12 +225,13 @@ CLAIMS = {
         "equals the polyline through the old rows at EVERY rational temperature (induction over rows, buckets and edge blocks + "
         "a refinement lemma for piecewise-linear functions); order_irrelevant (any permutation of the request gives the same "
         "table); reinsertion_noop; genCfg_ok (the generated column layout is consistent, by kernel decide over the live constants). "
-        "bookkeeping_preserved_partial (if the first row keeps its books and every later row has dT = gap to the row above and "
-        "dH = CP*dT, so does the returned table, for ANY requested temperatures at or below the top row: induction over the walk "
-        "with a linked-run invariant; genPairs_ok decides the needed layout facts of the live (CP, dH) pairs). Strict descent of "
-        "the result is part of curves_preserved. NOT theorems: minimum spacing (no near-duplicates) and the bookkeeping of the TOP "
-        "block (rows above the table, with its pinned single-row exception): decided by the correspondence (600+ call "
-        "sequences per run, every cell of the final table compared) plus the property oracle after every call.",
+        "bookkeeping_preserved (if the first row is a zero row - what the top row of a problem table is - and every later row has "
+        "dT = gap to the row above and dH = CP*dT, then so has every row after the first of the table returned for ANY requested "
+        "temperatures, above, inside or below the table: linked-run invariant through the mid blocks, the walk, the bottom block "
+        "and the shifted top block; genPairs_ok decides the needed layout facts of the live (CP, dH) pairs; "
+        "bookkeeping_preserved_partial is the same for any first row when nothing is inserted above it). Strict descent of the "
+        "result is part of curves_preserved. NOT a theorem: minimum spacing of the result (no near-duplicates) - decided by the "
+        "correspondence (600+ call sequences per run, every cell of the final table compared) and the oracle after every call.",
    technique="Lean 4 proof (structural induction + piecewise-linear refinement lemma) + correspondence testing over call histories",
    design="§6 C08"),
  "C01": dict(
